@@ -24,23 +24,65 @@ BUFFER_RULE = ("TLC enumerates every sequence of Write/WriteByte/WriteRune/SetMo
                "states (buf, validUntil, mode, markerOpen) reached on the real object")
 
 
+def buffer_traces(ctx):
+    """random long histories on the real ManualBuffer: judged by the predicates, every step validated by TLC"""
+    n, tracen = tier(ctx, (3000, 20000), (60000, 150000))
+    trace = ctx.work + "/buf.ndjson"
+    ctx.harness(["buffer-drive", "-prop", ctx.prop, "-n", str(n), "-trace", trace, "-tracen", str(tracen)])
+    ctx.trace_validate(trace, "buffer-drive")
+
+
+def c07(ctx):
+    ctx.tlc_replay("MCMarkers", "Markers.cfg", ["markers-replay"], consts=dict(MaxTok=tier(ctx, 5, 6)))
+    n, tracen = tier(ctx, (30000, 5000), (400000, 40000))
+    trace = ctx.work + "/markers.ndjson"
+    ctx.harness(["markers-drive", "-n", str(n), "-trace", trace, "-tracen", str(tracen)])
+    ctx.trace_validate(trace, "markers-drive")
+
+
+def c10(ctx):
+    ctx.tlc_replay("MCEscape", "Escape.cfg", ["escape-replay"], consts=dict(MaxTok=tier(ctx, 4, 5)))
+    n, tracen = tier(ctx, (20000, 5000), (300000, 40000))
+    trace = ctx.work + "/escape.ndjson"
+    ctx.harness(["escape-drive", "-n", str(n), "-trace", trace, "-tracen", str(tracen)])
+    ctx.trace_validate(trace, "escape-drive")
+
+
 def c01(ctx):
     buffer_model(ctx)
+    buffer_traces(ctx)
 
 
 def c03(ctx):
     buffer_model(ctx)
+    buffer_traces(ctx)
 
 
 def c09(ctx):
     buffer_model(ctx)
+    buffer_traces(ctx)
 
 
 def c13(ctx):
     buffer_model(ctx)
+    buffer_traces(ctx)
 
 
 PROPS = {
+    "C07": dict(run=c07, exhaustive=True, rule=(
+        "TLC enumerates every string that is a concatenation of at most MaxTok tokens from {start marker, end marker, "
+        "cross, LF, 'a', E2, 80, B9, BA} and checks the projection invariants; every such string is given to the real "
+        "Redact/StripMarkers/ToBytes/ToString (string and bytes variants) and compared with the model and with the "
+        "property's own statement; plus random strings of up to 14 richer tokens, recorded and validated by TLC; "
+        "distinct_nontrivial = distinct well-formed inputs with more than one chunk"), assumptions=[
+        "F6 (known finding): on invalid UTF-8 a single StripMarkers pass can re-assemble a marker from the bytes around a removed one"]),
+    "C10": dict(run=c10, exhaustive=True, rule=(
+        "TLC enumerates every byte string of at most MaxTok tokens from {E2,80,B9,BA,'a',space,LF,'?',start marker,end marker} "
+        "and checks the escape invariants for every start offset, both line-splitting and both strip settings; each string "
+        "is replayed on InternalEscapeBytes (all offsets x flags, input slice checked unmodified), EscapeMarkers, EscapeBytes "
+        "and a ManualBuffer in both escaping modes with every split point; plus random strings up to 20 tokens recorded and "
+        "validated by TLC; distinct_nontrivial = distinct inputs holding a marker, a LF or a dangling partial sequence"), assumptions=[
+        "'ends in a truncated multi-byte sequence' is read as utf8.DecodeLastRune = (RuneError,1), the test the code and the Go standard library share"]),
     "C01": dict(run=c01, rule=BUFFER_RULE, exhaustive=True, assumptions=[
         "raw (PreRedactable) writes are well-formed fragments, the mode's documented precondition"]),
     "C03": dict(run=c03, rule=BUFFER_RULE, exhaustive=True, assumptions=[
